@@ -159,6 +159,10 @@ func c20Exec(w http.ResponseWriter, ops []c20Op, before func(o c20Op), outs *[]c
 type c20Dir struct {
 	Scope  string   `json:"scope"`
 	Except []string `json:"except,omitempty"`
+	// the directive has a format of its own after the common prefix ("" = the site's Tail)
+	Tail string `json:"tail,omitempty"`
+	// block written line by line: one `except` line per path, with other sub-directives between them
+	Split bool `json:"split,omitempty"`
 }
 type c20Entry struct {
 	Except []string `json:"except,omitempty"`
@@ -1085,8 +1089,14 @@ func c20Site(in *c20In) (*c20LiveSite, error) {
 	var sb strings.Builder
 	sb.WriteString("root " + dir + "\n")
 	for i, d := range in.Dirs {
-		fmt.Fprintf(&sb, "log %s %s/%d.log \"%s|%s\"", d.Scope, dir, i, c20Prefix, in.Tail)
-		if len(d.Except) > 0 {
+		fmt.Fprintf(&sb, "log %s %s/%d.log \"%s|%s\"", d.Scope, dir, i, c20Prefix, c20DirTail(in, i))
+		if d.Split {
+			sb.WriteString(" {\n  rotate_keep 3\n")
+			for _, x := range d.Except {
+				sb.WriteString("  except " + x + "\n  rotate_size 50\n")
+			}
+			sb.WriteString("}")
+		} else if len(d.Except) > 0 {
 			sb.WriteString(" {\n  except " + strings.Join(d.Except, " ") + "\n}")
 		}
 		sb.WriteString("\n")
@@ -1127,6 +1137,22 @@ func c20Site(in *c20In) (*c20LiveSite, error) {
 	s := &c20LiveSite{inst: inst, addr: "127.0.0.1:" + port, dir: dir, offs: make([]int64, len(in.Dirs))}
 	c20Sites[string(key)] = s
 	return s, nil
+}
+
+// the format (after the common prefix) of directive i of the site
+func c20DirTail(in *c20In, i int) string {
+	if in.Dirs[i].Tail != "" {
+		return in.Dirs[i].Tail
+	}
+	return in.Tail
+}
+func c20OwnTails(in *c20In) bool {
+	for _, d := range in.Dirs {
+		if d.Tail != "" {
+			return true
+		}
+	}
+	return false
 }
 
 // newLines returns the lines appended to directive i's file since the last call.
@@ -1323,6 +1349,25 @@ func c20SiteTerm(in *c20In, addr string, o c20SiteObs) string {
 		if cuts == nil {
 			cuts = []c20Out{}
 		}
+	}
+	if c20OwnTails(in) {
+		// every line is judged against the format of the directive whose file it was found in
+		all := ""
+		var items []string
+		for i, l := range o.Lines {
+			f := in.Tail
+			if l.ID >= 0 && l.ID < len(in.Dirs) {
+				f = c20DirTail(in, l.ID)
+			}
+			all += "|" + f
+			items = append(items, cPair(cStr("|"+f), cStr(l.Tail)))
+			tails[i] = ""
+		}
+		env := c20EnvTerm(&q, "127.0.0.1", "", all)
+		site := cApp("CSite", cBool(in.Wrap != "gzip"), cBool(in.HasErr), cBool(in.Wrap == "header"), cBool(in.Head), c20DirsTerm(in.Dirs), cStr(in.Path), c20OpsTerm(in.Ops, cuts),
+			cZ(int64(in.Ret)), c20Tbl(in.Ret, 500), cBool(in.Abort > 0), cN(c20Acc(o.Calls)), cZ(int64(o.Status)), cN(uint64(o.Size)), c20LinesTerm(o.Lines),
+			cStr(""), env, cStrList(tails))
+		return cApp("CBurst", cList([]string{site, cApp("CTails", env, cList(items))}))
 	}
 	return cApp("CSite", cBool(in.Wrap != "gzip"), cBool(in.HasErr), cBool(in.Wrap == "header"), cBool(in.Head), c20DirsTerm(in.Dirs), cStr(in.Path), c20OpsTerm(in.Ops, cuts),
 		cZ(int64(in.Ret)), c20Tbl(in.Ret, 500), cBool(in.Abort > 0), cN(c20Acc(o.Calls)), cZ(int64(o.Status)), cN(uint64(o.Size)), c20LinesTerm(o.Lines),
@@ -1703,7 +1748,9 @@ func c20RunLocal(in *c20In) Result {
 // generators
 
 var c20EvilValues = []string{"{status}", "{>X-Evil}", "{size}{status}", "\\{x\\}", "}{", "{", "}", "plain", "a{host}b", "{~ck}",
-	"{?q}", "\\", "{{method}}", "{label1}", "x\\{status}", "{>X-Other}"}
+	"{?q}", "\\", "{{method}}", "{label1}", "x\\{status}", "{>X-Other}",
+	// values that begin / end with backslashes and braces (a value is never trimmed, unescaped or scanned)
+	"\\{status}", "{status}\\", "\\\\", "\\{", "}\\", "{\\", "\\}x\\{", "\\\\{size}\\\\", "{", "}}", "\\x"}
 var c20HdrNames = []string{"X-Evil", "X-Other", "User-Agent", "Referer"}
 var c20Placeholders = []string{"{>X-Evil}", "{>x-evil}", "{>X-EVIL}", "{>X-Other}", "{>X-Missing}", "{>}", "{<X-Resp}", "{<x-resp}",
 	"{<X-None}", "{<}", "{~ck}", "{~nock}", "{~}", "{~CK}", "{?q}", "{?noq}", "{?}", "{?z}", "{$C20_SET}", "{$C20_UNSET}",
@@ -1953,7 +2000,7 @@ func c20GenCustom(r *Rand) [][2]string {
 	return cs
 }
 var c20SiteEvil = []string{"{status}", "{>X-Evil}", "{size}{status}", "\\{x\\}", "}{", "{", "}", "plain", "a{host}b", "{~ck}", "{?q}",
-	"{{method}}", "{>X-C20-Id}", "|{status}|{size}|"}
+	"{{method}}", "{>X-C20-Id}", "|{status}|{size}|", "\\{status}", "{status}\\", "\\", "\\}x\\{", "{\\"}
 
 func c20GenSiteReq(r *Rand) *c20Req {
 	q := &c20Req{}
@@ -1983,6 +2030,48 @@ func c20DirsClean(ds []c20Dir) bool {
 		}
 	}
 	return true
+}
+
+// several log directives with scopes, except lists and formats of their own, the file written in both orders:
+// what one directive says must not reach another (nothing is carried from one directive's parse to the next)
+var c20OwnTailMenu = []string{
+	"{>X-Evil}{~ck}{?q}{>X-Evil}", "{>X-Evil}{>X-Evil}", "{method}{>X-Evil}{proto}", "{?q}\\{{>X-Evil}\\}{~ck}",
+	"{method} {uri} {proto}", "{>X-Evil}|{>x-evil}|{>X-Missing}", "{~ck}|{~nock}|{?q}|{?noq}", "{nope}|{}|{label1}",
+	"{host}|{path}|{query}|{file}|{dir}", "}{>X-Evil}{", "[{>User-Agent}] [{>Referer}] {~ck}",
+}
+
+func c20GenMulti(r *Rand) []*c20In {
+	n := r.Range(2, 3)
+	in := &c20In{Kind: "site", HasErr: r.Chance(40), Path: r.Pick(c20Paths), Tail: c20Tails[r.Intn(10)], Req: c20GenSiteReq(r)}
+	in.Ops, in.Ret = c20GenOps(r, "site")
+	tails := append([]string{}, c20OwnTailMenu...)
+	for i := 0; i < n; i++ {
+		d := c20Dir{Scope: r.Pick(c20Scopes[:8]), Split: r.Chance(40)}
+		if r.Chance(60) {
+			d.Scope = r.Pick([]string{"/", "/a"})
+		}
+		// except lists: the first directives mostly have one and the last mostly none, and the other way round
+		if r.Chance(65) {
+			d.Except = c20Subset(r, c20Excepts[:8], 3)
+			if r.Chance(50) {
+				d.Except = append(d.Except, in.Path)
+			}
+		}
+		if i == 0 || r.Chance(70) {
+			k := r.Intn(len(tails))
+			d.Tail = tails[k]
+			tails = append(tails[:k], tails[k+1:]...)
+		}
+		in.Dirs = append(in.Dirs, d)
+	}
+	rev := *in
+	rev.Dirs = nil
+	for i := n - 1; i >= 0; i-- {
+		rev.Dirs = append(rev.Dirs, in.Dirs[i])
+	}
+	rq := *in.Req
+	rev.Req = &rq
+	return []*c20In{in, &rev}
 }
 
 func c20GenSite(r *Rand) *c20In {
@@ -2149,6 +2238,24 @@ func c20Gen(r *Rand, tier string) []interface{} {
 		}
 		out = append(out, in)
 	}
+	// placeholders directly after one another, from position 0, values with backslashes and braces at their ends
+	for i := 0; i < nRepl/4; i++ {
+		in := &c20In{Kind: "repl", Req: c20GenReq(r)}
+		vals := c20EvilValues[len(c20EvilValues)-11:]
+		in.Req.Headers = []c20Hdr{{"X-Evil", []string{r.Pick(vals)}}, {"X-Other", []string{r.Pick(vals)}}}
+		in.Req.Query = [][2]string{{"q", r.Pick(vals)}}
+		in.Req.Custom = [][2]string{{"custom", r.Pick(vals)}}
+		var sb strings.Builder
+		for k, n := 0, r.Range(2, 5); k < n; k++ {
+			sb.WriteString(r.Pick([]string{"{>X-Evil}", "{>X-Other}", "{?q}", "{custom}", "{method}", "{nope}", "{>X-Evil}"}))
+		}
+		if r.Chance(30) {
+			sb.WriteString(r.Pick(c20Literals))
+			sb.WriteString(r.Pick([]string{"{>X-Evil}", "{custom}"}))
+		}
+		in.Fmt = sb.String()
+		out = append(out, in)
+	}
 	// the middleware over the scripted writer
 	for i := 0; i < nLog; i++ {
 		in := &c20In{Kind: "log", CS: r.Chance(25), EK: r.Intn(2), Path: r.Pick(c20Paths), RFW: r.Bool()}
@@ -2190,6 +2297,12 @@ func c20Gen(r *Rand, tier string) []interface{} {
 	// running sites
 	for i := 0; i < nSite; i++ {
 		out = append(out, c20GenSite(r))
+	}
+	// several log directives, each with its own scope / except list / format, in both orders of the file
+	for i := 0; i < nSite/8; i++ {
+		for _, x := range c20GenMulti(r) {
+			out = append(out, x)
+		}
 	}
 	// the client resets the connection in mid-response
 	for i := 0; i < nAbort; i++ {
